@@ -200,6 +200,8 @@ class Runner:
         self.assigned = set()
         self.list_built_with = None
         self.edge_op_since = {}  # parameter name -> an edge operation happened since its last assignment
+        self.marks_cleared = {}  # parameter name -> armi's "assigned since the last geometry transformation" mark is cleared (model of the documented bookkeeping)
+        self.centre_before = {}
 
     def probe(self, k):
         self.probes[k] = self.probes.get(k, 0) + 1
@@ -227,10 +229,12 @@ class Runner:
             blks = list(core.iterBlocks())
             if st["which"] in ("power", "vVol"):
                 self.edge_op_since[st["which"]] = False
+                self.marks_cleared[st["which"]] = False
                 self.assigned.add(st["which"])
             if st["which"] == "mgFlux":
                 self.assigned.add("lastMgFlux")
                 self.edge_op_since["lastMgFlux"] = False
+                self.marks_cleared["lastMgFlux"] = False
             if st["which"] == "power":
                 for j, b in enumerate(blks):
                     b.p.power = 1000.0 * st["u"] + j
@@ -242,6 +246,7 @@ class Runner:
 
                 self.assigned.add("mgFlux")
                 self.edge_op_since["mgFlux"] = False
+                self.marks_cleared["mgFlux"] = False
                 for j, b in enumerate(blks):
                     arr = np.array([1.0 * st["u"] + j, 2.0, 0.5 * j])
                     # the same array object on two parameters (what "last = current" bookkeeping does)
@@ -262,6 +267,13 @@ class Runner:
             self.had_edge_before_convert = bool(core.getAssembliesOnSymmetryLine(grids.BOUNDARY_120_DEGREES))
             self.before_convert = core_digest(core)
             t0 = totals(core)
+            self.centre_before = {}
+            for a in core:
+                if tuple(int(x) for x in a.spatialLocator.indices[:2]) == (0, 0):
+                    for b in a:
+                        for pn in sorted(self.assigned):
+                            v = b.p[pn]
+                            self.centre_before[(b.getName(), pn)] = None if v is None else (v.copy() if hasattr(v, "copy") else v)
             src_centres = self.centres()
             edge_ids = {id(a) for a in core.getAssembliesOnSymmetryLine(grids.BOUNDARY_120_DEGREES)}
             src = {i: xy for i, xy in src_centres.items() if i not in edge_ids}
@@ -327,6 +339,7 @@ class Runner:
             core_digest(core)
             for pn in self.assigned:
                 self.edge_op_since[pn] = True
+                self.marks_cleared[pn] = True  # addEdgeAssemblies clears the "assigned since the last geometry transformation" marks
             added = len(core) - n0
             nonc = [a for a in lower if tuple(int(x) for x in a.spatialLocator.indices[:2]) != (0, 0)]
             if added != len(nonc):
@@ -341,9 +354,13 @@ class Runner:
                 return False
             e = self.edge or gc.EdgeAssemblyChanger()
             had = self.edge is not None
+            n_before = len(core)
             e.removeEdgeAssemblies(core)
+            removed_some = len(core) < n_before
             for pn in self.assigned:
                 self.edge_op_since[pn] = True
+                if removed_some:
+                    self.marks_cleared[pn] = False  # (a removal that removes something sets the marks again, for every parameter)
             if had:
                 now = core_digest(core)
                 for field, a, b in diff_digest(self.before_edge, now):
@@ -382,6 +399,28 @@ class Runner:
                     self.fail("C13.convert", f"step {k}: {x} is shared between {seen[id(x)]} and {a.getName()}", what="shared")
                 seen[id(x)] = a.getName()
         new_objs = set(seen) - src_objs
+        # rotated into place: the copy that sits at the source's centre turned by kk x 120 degrees is
+        # itself turned by kk x 120 degrees (two sixty-degree steps per kk) relative to its source
+        by_id = {id(a): a for a in core}
+        for a in core:
+            if id(a) in src_objs:
+                continue
+            g = tuple(float(v) for v in a.spatialLocator.getGlobalCoordinates()[:2])
+            for sid, xy in src.items():
+                s_asm = by_id.get(sid)
+                if s_asm is None:
+                    continue
+                for kk in (1, 2):
+                    ang = 2.0 * math.pi * kk / 3.0
+                    x = xy[0] * math.cos(ang) - xy[1] * math.sin(ang)
+                    y = xy[0] * math.sin(ang) + xy[1] * math.cos(ang)
+                    if abs(x - g[0]) < 1e-6 and abs(y - g[1]) < 1e-6:
+                        for bs, bn in zip(s_asm, a):
+                            want = (int(bs.getRotationNum()) + 2 * kk) % 6
+                            if int(bn.getRotationNum()) != want:
+                                self.fail("C13.convert", f"step {k}: the copy of {s_asm.getName()} at {a.getLocation()} (its centre turned by {120 * kk} degrees) has blocks turned by {60 * ((int(bn.getRotationNum()) - int(bs.getRotationNum())) % 6)} degrees relative to the source", what="rotation")
+                                break
+                        self.probe("copies_rotation_checked")
         # name/location lookups resolve
         for a in core:
             if core.getAssemblyByName(a.getName()) is not a:
@@ -394,7 +433,27 @@ class Runner:
         n_src = len(src)
         if t1["n"] != 3 * (n_src - centre) + centre:
             self.fail("C13.times3", f"step {k}: {t1['n']} assemblies after convert, expected {3 * (n_src - centre) + centre}", what="count")
-        if not edge_ids:
+        if edge_ids:
+            # convert() takes the edge assemblies out first, which sets the marks again
+            for pn in self.assigned:
+                self.marks_cleared[pn] = False
+        # the centre assembly, block by block: three times its third-core value
+        for (bn, pn), v0 in sorted(self.centre_before.items()):
+            b = core.getBlockByName(bn) if hasattr(core, "getBlockByName") else None
+            if b is None or v0 is None:
+                continue
+            v1 = b.p[pn]
+            s0 = float(sum(v0)) if hasattr(v0, "__len__") else float(v0)
+            s1 = float(sum(v1)) if hasattr(v1, "__len__") else float(v1)
+            if s0 and abs(s1 - 3.0 * s0) > 1e-10 * abs(s1):
+                self.fail(
+                    "C13.times3",
+                    f"step {k}: {pn} of centre block {bn} is {s1} after convert, its third-core value was {s0} (x3 = {3.0 * s0})",
+                    what="volume-integrated",
+                    edgeOpSinceAssignment=bool(self.marks_cleared.get(pn, False)),
+                    firstAssignedAfterChangerBuiltItsList=bool(self.plan["config"].get("reuseChanger") and self.list_built_with is not None and pn not in self.list_built_with),
+                )
+        if True:
             for key in t0:
                 if key == "n":
                     continue
